@@ -209,6 +209,14 @@ fn run_case(prop: &str, case: &Line) -> Outcome {
       content_flags.push(f.into());
     }
   }
+  // sometimes no inscription index, sometimes no content index at all (headers only): reorg detection,
+  // savepoints and commits must behave the same
+  if rng.chance(1, 4) {
+    if rng.chance(1, 2) {
+      content_flags.clear();
+    }
+    content_flags.push("--no-index-inscriptions".into());
+  }
   mockcore::VERIF_HEADERS.store(if mode == 0 { -1 } else if mode == 1 { -2 } else { 0 }, std::sync::atomic::Ordering::SeqCst);
   let mut w = World {
     core: ordkit::regtest_core(),
